@@ -80,13 +80,34 @@ def run(ctx):
             tr = {"Europe/Berlin": [(2024, 3, 31), (2024, 10, 27), (2019, 3, 31)], "America/New_York": [(2024, 3, 10), (2024, 11, 3)],
                   "Australia/Sydney": [(2024, 4, 7), (2024, 10, 6)], "America/Sao_Paulo": [(2018, 11, 4), (2019, 2, 17)]}[zone]
             y_, m_, d_ = rng.choice(tr)
-            d0 = dt.date(y_, m_, d_) - dt.timedelta(days=rng.choice([1, 1, 2]))
-            ds = (d0.year, d0.month, d0.day, rng.randint(0, 23), rng.choice([0, 15, 30, 45, rng.randint(0, 59)]), 0)
+            back = rng.choice([0, 1, 1, 2])
+            d0 = dt.date(y_, m_, d_) - dt.timedelta(days=back)
+            # (back = 0: DTSTART itself in the hours of the change, on a local time that does not exist or exists twice)
+            ds = (d0.year, d0.month, d0.day, rng.randint(0, 23) if back else rng.randint(0, 3), rng.choice([0, 15, 30, 45, rng.randint(0, 59)]), 0)
+            if not back and rng.random() < 0.7:
+                # ... on a local time that does not exist
+                gy, gm, gd, gh = {"Europe/Berlin": (2024, 3, 31, 2), "America/New_York": (2024, 3, 10, 2), "Australia/Sydney": (2024, 10, 6, 2),
+                                  "America/Sao_Paulo": (2018, 11, 4, 0)}[zone]
+                ds = (gy, gm, gd, gh) + ds[4:]
             r = rfc5545.Rule(rng.choice(["MINUTELY", "MINUTELY", "HOURLY"]))
             r.interval = rng.choice([10, 15, 20, 30, 45]) if r.freq == "MINUTELY" else 1
             if rng.random() < 0.3:
                 r.count = rng.choice([70, 130, 200])
             ext, cls = "", {"dst-subhourly"}
+        if i % 17 == 5:
+            # UNTIL (UTC) within the hours around a change of the clocks, the rule running in local time across it
+            import zoneinfo
+            zone = rng.choice(["Europe/Berlin", "America/New_York", "Australia/Sydney", "Europe/London"])
+            tr = {"Europe/Berlin": [(2020, 3, 29), (2020, 10, 25), (2024, 10, 27)], "America/New_York": [(2024, 3, 10), (2024, 11, 3)],
+                  "Australia/Sydney": [(2024, 4, 7), (2024, 10, 6)], "Europe/London": [(2021, 3, 28), (2021, 10, 31)]}[zone]
+            y_, m_, d_ = rng.choice(tr)
+            d0 = dt.date(y_, m_, d_) - dt.timedelta(days=rng.choice([1, 2, 3]))
+            ds = (d0.year, d0.month, d0.day, rng.randint(0, 3), rng.choice([0, 15, 30, 45]), 0)
+            r = rfc5545.Rule(rng.choice(["DAILY", "MINUTELY", "HOURLY", "DAILY"]))
+            r.interval = rng.choice([15, 30]) if r.freq == "MINUTELY" else 1
+            u = dt.datetime(y_, m_, d_, tzinfo=zoneinfo.ZoneInfo(zone)).astimezone(dt.timezone.utc) + dt.timedelta(minutes=rng.choice([0, 30, 50, 65, 90, 125, 150, 185, 245]))
+            r.until = (u.year, u.month, u.day, u.hour, u.minute, 0)
+            ext, cls = "", {"dst-until"}
         if "hijri" in cls:
             # a DTSTART the Hijri table covers, rule parts that exist on that scale
             ds = (rng.randint(1995, 2030),) + ds[1:]
@@ -101,6 +122,12 @@ def run(ctx):
     for i, (ds, r, ext, cls, zone) in enumerate(cases):
         ops.append("r.strm %s | from=%s%s n=%d" % (structs[i], p_rrfill.proto_hex(ds), " zone=%s" % zone if zone else "", npop))
     impl, st, err = ctx.impl(exe, ops, timeout=600)
+    # DTSTART as an instant the way echse converts it (a local time that does not exist has no instant of its own in the
+    # zone database; which one it is taken for is C07's business): the only occurrence of FREQ=DAILY;COUNT=1
+    one, _, _ = ctx.impl(exe, ["r.parse " + "FREQ=DAILY;COUNT=1".encode().hex()])
+    zidx = [i for i, c in enumerate(cases) if c[4]]
+    zans, _, _ = ctx.impl(exe, ["r.strm %s | from=%s zone=%s n=1" % (one[0], p_rrfill.proto_hex(cases[i][0]), cases[i][4]) for i in zidx])
+    own_start = {i: unhex16(a.split(",")[0])[:6] for i, a in zip(zidx, zans) if len(a.split(",")[0]) == 16}
     plain = [i for i, c in enumerate(cases) if not c[4] and "hijri" not in c[3]]
     mops = [ops[i].replace("n=%d" % npop, "n=400") for i in plain]
     mimpl, st2, err2 = ctx.impl(exe, mops, timeout=600)
@@ -148,8 +175,12 @@ def run(ctx):
             import zoneinfo
             z = zoneinfo.ZoneInfo(zone)
             s_utc = dt.datetime(*ds[:6], tzinfo=z).astimezone(dt.timezone.utc)
-            if inst[0][:6] < (s_utc.year, s_utc.month, s_utc.day, s_utc.hour, s_utc.minute, s_utc.second) and \
-               (dt.datetime(*inst[0][:6]) - s_utc.replace(tzinfo=None)).total_seconds() < -3600:
+            s6 = (s_utc.year, s_utc.month, s_utc.day, s_utc.hour, s_utc.minute, s_utc.second)
+            exists = dt.datetime(*ds[:6], tzinfo=z).astimezone(dt.timezone.utc).astimezone(z).replace(tzinfo=None) == dt.datetime(*ds[:6])
+            if not exists:
+                clsc["dtstart-in-gap"] += 1
+                s6 = own_start.get(i, s6)
+            if inst[0][:6] < s6:
                 why = "first occurrence %s lies before DTSTART (%s UTC)" % (inst[0][:6], s_utc)
         if why is None and zone and inst and r.until is not None and r.until[3] is not None:
             # with a zone UNTIL is in UTC, as the occurrences are
